@@ -19,6 +19,12 @@ import time
 
 import z3
 
+import sys
+sys.set_int_max_str_digits(0)
+
+
+OPTIONS = {}
+
 
 class Unsupported(BaseException):
     """Operation outside the numeric model, or solver returned unknown: path is inconclusive."""
@@ -273,12 +279,12 @@ class Engine:
             regions = [(fid, tobool(f(self.inputs))) for fid, f in self.known_regions]
             regions = [(fid, reg) for fid, reg in regions if not isinstance(reg, bool) or reg]
             excl = [z3.Not(reg) if not isinstance(reg, bool) else z3.BoolVal(not reg) for _, reg in regions]
-            if len(self.smt2_samples) < self.keep_smt2:
+            r, m = self._check(neg, *excl)
+            if r == z3.unsat and len(self.smt2_samples) < self.keep_smt2:
                 self.solver.push()
                 self.solver.add(neg, *excl)
                 self.smt2_samples.append(self.solver.to_smt2())
                 self.solver.pop()
-            r, m = self._check(neg, *excl)
             if r == z3.sat:
                 results.append(('cex', self.model_values(m), list(self.trace), None, dict(self.notes)))
             elif r == z3.unknown:
@@ -459,7 +465,19 @@ class Sym:
     def __pos__(self): return self
 
     def __abs__(self):
-        return Sym(z3.If(self.t >= 0, self.t, -self.t))
+        t = z3.simplify(self.t)
+        if is_num(t):
+            return Sym(t if t.as_fraction() >= 0 else z3.simplify(-t))
+        e = E()
+        if e is not None and getattr(e, 'solver', None) is not None:
+            # resolve the sign when the path condition already implies it (no fork); otherwise keep it symbolic
+            r, _ = e._check(t < 0)
+            if r == z3.unsat:
+                return Sym(t)
+            r2, _ = e._check(t > 0)
+            if r2 == z3.unsat:
+                return Sym(z3.simplify(-t))
+        return Sym(z3.If(t >= 0, t, -t))
 
     @staticmethod
     def _truediv(a, b):
@@ -604,6 +622,15 @@ def _divide(a, b):
         c, x, y = a.children()
         return z3.If(c, _divide(z3.simplify(x), b), _divide(z3.simplify(y), b))
     e = E()
+    if OPTIONS.get('div_mode') == 'quot':
+        # quotient variable q with q*b == a: the product q*b expands into the same monomials wherever the quotient is
+        # multiplied by b again, so identities of the form (a/b)*b == a are linear over the monomials
+        key = 'quot:' + a.sexpr() + '/' + b.sexpr()
+        if key not in e.memo:
+            q = e.fresh('quot')
+            e.add(z3.simplify(q * b, som=True) == z3.simplify(a, som=True))
+            e.memo[key] = q
+        return e.memo[key]
     out = a
     stack = [b]
     while stack:
@@ -667,28 +694,26 @@ def sym_abs(x):
     return abs(x)
 
 
-def sym_max(*args, **kw):
+def _fold_extreme(args, kw, builtin, pick):
     if len(args) == 1 and not kw:
         args = tuple(args[0])
+        if not args:
+            raise ValueError('%s() arg is an empty sequence' % builtin.__name__)
     if kw or not any(isinstance(a, Sym) for a in args):
-        return max(*args, **kw) if len(args) > 1 else max(args[0], **kw)
+        return builtin(args, **kw) if len(args) > 0 else builtin(*args, **kw)
     r = args[0]
     for a in args[1:]:
         x, y = coerce(a, r)
-        r = Sym(z3.simplify(z3.If(x > y, x, y)))
+        r = Sym(z3.simplify(z3.If(pick(x, y), x, y)))
     return r
+
+
+def sym_max(*args, **kw):
+    return _fold_extreme(args, kw, max, lambda x, y: x > y)
 
 
 def sym_min(*args, **kw):
-    if len(args) == 1 and not kw:
-        args = tuple(args[0])
-    if kw or not any(isinstance(a, Sym) for a in args):
-        return min(*args, **kw) if len(args) > 1 else min(args[0], **kw)
-    r = args[0]
-    for a in args[1:]:
-        x, y = coerce(a, r)
-        r = Sym(z3.simplify(z3.If(x < y, x, y)))
-    return r
+    return _fold_extreme(args, kw, min, lambda x, y: x < y)
 
 
 def sym_sqrt_exact(x):
